@@ -510,6 +510,14 @@ class BGP(protocol.Protocol):
         if self.fsm.bgp_peering.peer_asn != open_msg.asn:
             raise excep.OpenMessageError(sub_error=bgp_cons.ERR_MSG_OPEN_BAD_PEER_AS)
 
+        if self.fsm.state in (bgp_cons.ST_OPENCONFIRM, bgp_cons.ST_ESTABLISHED):
+            # only the first OPEN of a connection negotiates the session; a later one
+            # must not change hold time or capabilities of the session that is running
+            if open_msg.hold_time in (1, 2):
+                raise excep.OpenMessageError(sub_error=bgp_cons.ERR_MSG_OPEN_UNACCPT_HOLD_TIME)
+            self.fsm.open_received()
+            return
+
         # Open message Capabilities negotiation
         cfg.CONF.bgp.running_config['capability']['remote'] = open_msg.capa_dict
         LOG.info("[%s]A BGP Open message was received", self.factory.peer_addr)
